@@ -108,15 +108,34 @@ def fp(v, depth=0):
     return ("obj", type(v).__name__)
 
 
+class Snap:
+    """identity AND value of everything an object stores itself.  The snapshot HOLDS the stored objects: otherwise
+    a replaced value could be released and its address (= id) re-used by the replacement, and the replacement would
+    go unnoticed"""
+    __slots__ = ("key", "hold")
+
+    def __init__(self, key, hold):
+        self.key = key
+        self.hold = hold
+
+    def __eq__(self, other):
+        return isinstance(other, Snap) and self.key == other.key
+
+    def __ne__(self, other):
+        return not self.__eq__(other)
+
+    __hash__ = None
+
+
 def snap(o):
-    """identity AND value of everything an object stores itself"""
     if isinstance(o, list) and hasattr(o, "_owner"):
-        return ("sublist", tuple(id(x) for x in o), ident(o.__dict__.get("_owner")))
+        return Snap(("sublist", tuple(id(x) for x in o), ident(o.__dict__.get("_owner"))), list(o))
     if hasattr(o, "__dict__") and not isinstance(o, (set, dict, list)) and not hasattr(o, "wkb"):
+        cache = o.__dict__.get("__cache__") or {}
         d = {k: (ident(v), fp(v)) for k, v in o.__dict__.items() if k != "__cache__"}
-        c = {k: (id(v), fp(v)) for k, v in (o.__dict__.get("__cache__") or {}).items()}
-        return ("host", d, c)
-    return ("val", fp(o))
+        c = {k: (id(v), fp(v)) for k, v in cache.items()}
+        return Snap(("host", d, c), list(o.__dict__.values()) + list(cache.values()))
+    return Snap(("val", fp(o)), [o])
 
 
 def public_refs(p):
@@ -505,6 +524,7 @@ class Oracle:
 
 
 def _diff(a, b):
+    a, b = a.key, b.key
     if a[0] != "host" or b[0] != "host":
         return f"{str(a)[:100]} -> {str(b)[:100]}"
     out = []
@@ -926,6 +946,14 @@ CORPUS = [
      ("k", ("keep", "$a")), (None, ("solve", "$b", "$k")), ("t", ("transport", 1, False, False)),
      (None, ("append", "$s", "$t")), (None, ("solve", "$s", "$q")), ("b2", ("pass", "A", 1, True, 1, 1.2)),
      (None, ("replace", "$s", 1, "$b2")), (None, ("solve", "$s", "$p"))],
+    # hooked transport in a nested sequence, appends between re-solves (a run in which a re-used out-profile is
+    # re-assigned value-equal entries: the snapshots must hold the old values, see Snap)
+    [("p", ("profile", "A", ["chemical_composition", "my_tags"])), ("t1", ("transport", 0, True, False)),
+     ("t2", ("transport", 2, False, False)), ("t3", ("transport", 2, False, True)), ("a", ("pass", "A", 0, True, 0, 0.9)),
+     ("n", ("seq", ["$t1", "$t2"])), ("s", ("seq", ["$n", "$t3", "$a"])), (None, ("solve", "$s", "$p")),
+     ("t4", ("transport", 0, False, False)), (None, ("append", "$s", "$t4")), (None, ("solve", "$s", "$p")),
+     ("t5", ("transport", 1, False, False)), (None, ("append", "$s", "$t5")), (None, ("solve", "$s", "$p")),
+     (None, ("hook", "$t1")), (None, ("gap", "$a", 0.9)), (None, ("solve", "$s", "$p"))],
     # three-roll chain with a cooling pipe
     [("p", ("profile", "3", ["my_tags"])), ("a", ("pass", "3", 0, True, 0, 1.0)), ("t", ("transport", 0, False, True)),
      ("b", ("pass", "3", 1, True, 0, 1.0)), ("s", ("seq", ["$a", "$t", "$b"])), ("r", ("solve", "$s", "$p")),
@@ -982,7 +1010,7 @@ class Record:
 
 
 def run(ctx):
-    n_hist = ctx.budget(100, 1200)
+    n_hist = ctx.budget(100, 1500)
     use_model = getattr(ctx, "model_available", True)
     records = []
     for sym in CORPUS:
